@@ -167,7 +167,8 @@ def parse(text, system):
         value *= base ** EXPONENT[prefix[0]]
     if unit in ('b', 'bit'):
         value /= 8
-    parts = {'sign': sign, 'mag': mag, 'prefix': prefix, 'unit': unit}
+    parts = {'sign': sign, 'mag': mag, 'prefix': prefix, 'unit': unit,
+             'base': base if prefix else 1}
     if nonascii:
         return ('unspec', 'non-ascii-digits', value, parts)
     return ('valid', value, parts)
@@ -206,11 +207,27 @@ def still_failing():
     return out
 
 
-def exact_in_floats(mag, x, bits):
-    """Integer literal and every intermediate product below 2**53: any
-    order of float operations is exact, so no tolerance is granted."""
-    return '.' not in mag and mag.isascii() and \
-        abs(x) * (8 if bits else 1) < 2 ** 53
+def exact_in_floats(mag, x, bits, base=None):
+    """No tolerance is granted when binary floating point (and so any exact
+    arithmetic too) computes the quantity without rounding in every order
+    of operations: an integer literal with every intermediate product below
+    2**53, or a magnitude that is itself a binary float (integers below
+    2**53, dyadic decimals such as 1.5 or .125) scaled only by powers of two
+    (base 1024, /8) - however large the result."""
+    if not mag.isascii():
+        return False
+    if '.' not in mag and abs(x) * (8 if bits else 1) < 2 ** 53:
+        return True
+    if base in (1, 1024):
+        try:
+            m = Fraction(decimal.Decimal(mag))
+        except Exception:
+            return False
+        if base == 1 and m >= 2 ** 53:
+            return False
+        return Fraction(float(m)) == m and m < 2 ** 200 and \
+            (m == 0 or m * 8 >= Fraction(1, 2 ** 200))
+    return False
 
 
 def close(got, x):
@@ -262,7 +279,8 @@ def check_stb(col, sub, case, near=True):
     if rint:
         lo, hi = sorted((x * (1 - EPS), x * (1 + EPS)))
         lo, hi = math.ceil(lo), math.ceil(hi)
-        if exact_in_floats(parts['mag'], x, parts['unit'] != 'B'):
+        if exact_in_floats(parts['mag'], x, parts['unit'] != 'B',
+                           parts.get('base')):
             lo = hi = math.ceil(x)
         if isinstance(g, bool) or not isinstance(g, int) or not lo <= g <= hi:
             raise Violation(sub, 'string_to_bytes(%r, unit_system=%r, '
@@ -275,6 +293,12 @@ def check_stb(col, sub, case, near=True):
             raise Violation(sub, 'string_to_bytes(%r, unit_system=%r) = %r, '
                             'expected %s (= %r)' % (text, system, g, x,
                                                     float(x)), case)
+        if exact_in_floats(parts['mag'], x, parts['unit'] != 'B',
+                           parts.get('base')) and Fraction(g) != x:
+            raise Violation(sub, 'string_to_bytes(%r, unit_system=%r) = %r, '
+                            'expected exactly %s (every step is exact in '
+                            'binary floating point)' % (text, system, g, x),
+                            case)
     p = parts['prefix']
     nt = bool(p) and ('.' in parts['mag'] or parts['unit'] != 'B' or
                       system != 'IEC' or rint)
@@ -716,6 +740,25 @@ def probe_known(col):
                 col.case(sub, repr(case), True, name + '/repaired', case)
 
 
+def stb_format_tokens(col):
+    """Malformed texts that carry printf / str.format / regex-replacement
+    tokens, alone and around a valid quantity: an error path that formats
+    the rejected text must still end in ValueError and nothing else."""
+    from vcheck.confusables import FORMAT_TOKENS
+    sub = 'stb/format-tokens'
+    for t in FORMAT_TOKENS:
+        for text in (t, t + 'KB', '1' + t + 'B', '1K' + t, t + '1KB',
+                     '1KB' + t, '1 ' + t + ' KB', '-' + t):
+            for system in SYSTEMS + UNKNOWN_SYSTEMS:
+                for rint in (False, True):
+                    case = {'text': text, 'system': system,
+                            'return_int': rint}
+                    cls, _nt = check_stb(col, sub, case, near=False)
+                    col.case(sub, (text, system, rint), True,
+                             cls + '/' + str(system), case)
+    col.exhaustive[sub] = True
+
+
 def _pred(fn):
     def pred(rec):
         case = rec.get('case') or {}
@@ -733,7 +776,8 @@ def tasks(tier, seed):
         slen, shards, n_rand, n_qemu = 5, 8, 1500, 500
     else:
         slen, shards, n_rand, n_qemu = 6, 12, 20000, 6000
-    out = [Task('probe', probe_known)]
+    out = [Task('probe', probe_known),
+           Task('stb/format-tokens', stb_format_tokens)]
     for i in range(shards):
         out.append(Task('stb/random', stb_random,
                         seed=core.derive_seed(seed, ID, 'stb', i),
